@@ -21,6 +21,7 @@ type propDef struct {
 	Explain string
 	NotCov  string
 	Floor   int
+	Tech    string
 	Run     func(c *Ctx)
 }
 
@@ -58,7 +59,8 @@ func main() {
 		}
 		sort.Strings(ids)
 		for _, id := range ids {
-			fmt.Println(id)
+			b, _ := json.Marshal(map[string]any{"id": id, "explain": props[id].Explain, "not_covered": props[id].NotCov, "technique": props[id].Tech, "floor": props[id].Floor})
+			fmt.Println(string(b))
 		}
 		return
 	}
